@@ -1378,3 +1378,10 @@ M('C01', 'multiply writes into the first factor', NPYF,
   "        np.multiply(x1.data, x2.data, out=out.data)",
   "        out.data[:] = np.multiply(x1.data, x2.data, out=x1.data)",
   'C01-R4L')
+M('C17', 'second ufunc output typed like the first', NPYF,
+  "                    out2_space = type(self.space)(self.shape, res2.dtype)",
+  "                    out2_space = type(self.space)(self.shape, res1.dtype)",
+  'frexp')
+M('C17', 'product-space binary ufunc decides componentwise by type', 'odl/util/ufuncs.py',
+  "                if x2 in self.elem.space:",
+  "                if isinstance(x2, type(self.elem)):", 'nested pspace')
